@@ -476,6 +476,100 @@ def r13_8(run):
     borrow(run, c01.r01_6, 'R13.8')
 
 
+def r13_9(run):
+    """only a line that contains "=" starts a new key.  A line without it is a bare keyword or one more line of a value - a
+    data-block line that happens to read like a requested key must stay part of the value.  Independent of how the line is cut
+    (split / partition / a flag): wherever the current key is (re)bound from the line, "the line has an =" is established."""
+    pk = run.idx.unit(MOD + '.parse_keywords')
+    g = cfg_of(pk)
+    defs = local_defs(pk)
+    loops = [n for n in walk_unit(pk) if isinstance(n, ast.For) and isinstance(n.target, ast.Name)]
+    if not loops:
+        raise Undecided('parse_keywords: loop over the lines not found')
+    L = loops[0].target.id
+    # names cut out of the line at "=": (name, sep, rest) = line.partition('=') / parts = line.split('=', 1)
+    seps, parts = set(), set()
+    for n in walk_unit(pk):
+        if isinstance(n, ast.Assign) and isinstance(n.value, ast.Call) and dotted(receiver(n.value)) == L and n.value.args and const(n.value.args[0]) == '=':
+            if callee_attr(n.value) == 'partition' and isinstance(n.targets[0], (ast.Tuple, ast.List)) and len(n.targets[0].elts) == 3 and isinstance(n.targets[0].elts[1], ast.Name):
+                seps.add(n.targets[0].elts[1].id)
+            elif callee_attr(n.value) == 'split' and isinstance(n.targets[0], ast.Name):
+                parts.add(n.targets[0].id)
+
+    def implies(e, depth=0):
+        """truth of e implies that the line contains '=' (three-valued: True / False)"""
+        if isinstance(e, ast.Constant):
+            return e.value is False or e.value is None
+        if isinstance(e, ast.BoolOp):
+            vs = [implies(v, depth) for v in e.values]
+            return any(vs) if isinstance(e.op, ast.And) else all(vs)
+        if isinstance(e, ast.Compare) and len(e.ops) == 1:
+            op, l, r = e.ops[0], e.left, e.comparators[0]
+            if isinstance(op, ast.In) and const(l) == '=' and dotted(r) == L:
+                return True
+            if isinstance(op, ast.Eq) and ((dotted(l) in seps and const(r) == '=') or (dotted(r) in seps and const(l) == '=')):
+                return True
+            if isinstance(op, ast.NotEq) and dotted(l) in seps and const(r) == '':
+                return True
+            if isinstance(l, ast.Call) and dotted(l.func) == 'len' and l.args and dotted(l.args[0]) in parts:
+                c = const(r)
+                if (isinstance(op, ast.Eq) and c == 2) or (isinstance(op, ast.Gt) and c == 1) or (isinstance(op, ast.GtE) and c == 2) or (isinstance(op, ast.NotEq) and c == 1):
+                    return True
+            return False
+        if isinstance(e, ast.Name):
+            if e.id in seps:
+                return True
+            ds = [d for d in defs.get(e.id, []) if d[0] == 'expr']
+            if depth < 3 and ds and len(ds) == len(defs.get(e.id, [])):
+                return all(implies(d[1], depth + 1) for d in ds)
+        return False
+
+    def refutes(e):
+        """falsity of e implies that the line contains '='"""
+        if isinstance(e, ast.Compare) and len(e.ops) == 1:
+            op, l, r = e.ops[0], e.left, e.comparators[0]
+            if isinstance(op, ast.NotIn) and const(l) == '=' and dotted(r) == L:
+                return True
+            if isinstance(op, ast.NotEq) and dotted(l) in seps and const(r) == '=':
+                return True
+            if isinstance(op, ast.Eq) and dotted(l) in seps and const(r) == '':
+                return True
+        return False
+    # where the current key is bound from the line
+    linevars = set([L]) | seps | parts
+    changed = True
+    while changed:
+        changed = False
+        for n in walk_unit(pk):
+            if isinstance(n, ast.Assign) and any(isinstance(x, ast.Name) and x.id in linevars for x in ast.walk(n.value)):
+                for t in n.targets:
+                    for x in ast.walk(t):
+                        if isinstance(x, ast.Name) and isinstance(x.ctx, ast.Store) and x.id not in linevars and x.id not in ('rtn',):
+                            linevars.add(x.id)
+                            changed = True
+    # the key variable: the name used as subscript of the result dict most often
+    subs = {}
+    for n in walk_unit(pk):
+        if isinstance(n, ast.Subscript) and isinstance(n.slice, ast.Name):
+            subs[n.slice.id] = subs.get(n.slice.id, 0) + 1
+    if not subs:
+        raise Undecided('parse_keywords: the key variable was not found')
+    K = max(subs, key=lambda k_: subs[k_])
+    k = 0
+    for n in g.real_nodes():
+        if n.kind != 'stmt' or not isinstance(n.ast, ast.Assign):
+            continue
+        v = assign_to(n.ast, K)
+        if v is None or is_none(v) or not any(isinstance(x, ast.Name) and x.id in linevars for x in ast.walk(n.ast.value)):
+            continue
+        k += 1
+        ok = any((lab == 'T' and implies(t.ast)) or (lab == 'F' and refutes(t.ast)) for t, lab in g.guarded_by(n, lambda t_: True))
+        run.ob('R13.9', pk, n.ast, 'a new key is taken from a line only where the line is known to contain "="', ok, slot='key-needs-equals',
+               message='parse_keywords starts a new key (%s) on a path where nothing has established that the line contains "=": a value line of a data block that '
+                       'reads like a key (e.g. equals a requested key) splits the value in two' % src(n.ast)[:50])
+    run.floor('R13.9', 'bindings of the current key from the line', k, 1)
+
+
 RULES = [
     ('R13.8', 'line-machine routing per line class (R01.6 borrowed): a data-block line inside a multi-key reply continues the reply text', r13_8),
     ('R13.7', 'reply buffer emptied on every path of _broadcast_response; every received line reaches the machine', r13_7),
@@ -483,6 +577,7 @@ RULES = [
     ('R13.1', 'dot-unstuffing exists on the data-line path and precedes accumulation; terminator matched first', r13_1),
     ('R13.2', 'GETINFO wrappers request exactly the given keys and parse with key_hints = those keys', r13_2),
     ('R13.3', 'parse_keywords legs: sentinel only without "=", value = remainder, repeats accumulate in arrival order, final flush', r13_3),
+    ('R13.9', 'a line starts a new key only where "the line contains =" is established (split, partition or flag form)', r13_9),
     ('R13.4', 'every split on "=" whose value part is used has maxsplit 1', r13_4),
     ('R13.5', 'GETCONF wrappers return the parsed value without defaults; sentinel distinct from ""', r13_5),
 ]
